@@ -99,9 +99,12 @@ fn copy_bytes_large_forwards() {
     kani::assume(count >= 128);
     let s = buf.as_ptr();
     let d = buf.as_ptr() as *mut u8;
+    unsafe { *core::ptr::addr_of_mut!(FWD) = (0, 0, 0, 0); }
     unsafe { crate::copy_bytes(s, d, count); }
     let r = unsafe { &*core::ptr::addr_of!(FWD) };
     kani::assert(r.0 == 1 && r.1 == s as usize && r.2 == d as usize && r.3 == count,
         "copy_bytes: count >= 128 is exactly one ptr::copy(src, dst, count)");
     kani::cover!(true, "REACHED");
 }
+
+include!("k1_lib.inst.rs");
